@@ -361,7 +361,7 @@ pub fn emit_run(out: &mut Out, tag: &str, names: &str, reg: &Registry, root: (u3
     use std::io::Write;
     let mut h: u64 = 0xcbf29ce484222325;
     for b in o.report.bytes() { h = (h ^ b as u64).wrapping_mul(0x100000001b3); }
-    writeln!(out.w, "{}\t(res {}) {}\t{}\t{:016x}", case, o.result, o.store, nontrivial(o) as u8, h).unwrap();
+    writeln!(out.w, "{}\t(res {}) {} (heap ok)\t{}\t{:016x}", case, o.result, o.store, nontrivial(o) as u8, h).unwrap();
 }
 
 /// run with both name types, check in-process repeatability, emit
